@@ -93,6 +93,10 @@ impl UpdateLeadingTrivia for TypeInfo {
     open spec fn rest_same(&self, r: &Self) -> bool { true }
     #[verifier::external_body] fn update_leading_trivia(&self, leading_trivia: FormatTriviaType) -> (r: Self) { unimplemented!() }
 }
+pub open spec fn ctx_le(a: TypeInfoContext, b: TypeInfoContext) -> bool {
+    (a.within_optional ==> b.within_optional) && (a.within_variadic ==> b.within_variadic) && (a.within_generic ==> b.within_generic)
+    && (a.within_table_indexer ==> b.within_table_indexer) && (a.contains_union ==> b.contains_union) && (a.contains_intersect ==> b.contains_intersect)
+}
 pub open spec fn ctx0() -> TypeInfoContext { TypeInfoContext { within_optional: false, within_variadic: false, within_generic: false, within_table_indexer: false, contains_union: false, contains_intersect: false } }
 pub open spec fn with_optional(c: TypeInfoContext) -> TypeInfoContext { TypeInfoContext { within_optional: true, ..c } }
 pub open spec fn with_variadic(c: TypeInfoContext) -> TypeInfoContext { TypeInfoContext { within_variadic: true, ..c } }
@@ -155,12 +159,12 @@ def items():
     ensures parens_needed(*internal_type, context) ==> r, //# C02.luau_type_parentheses_kept
 """, edits=[SplitOrGuards()]),
         Raw(HANG_SPEC, module="formatters::luau"),
-        Fn(LU, "mark_contains_union", impl_of="TypeInfoContext", contract="ensures r == with_union(self),"),
-        Fn(LU, "mark_contains_intersect", impl_of="TypeInfoContext", contract="ensures r == with_intersect(self),"),
-        Fn(LU, "mark_within_optional", impl_of="TypeInfoContext", contract="ensures r == with_optional(self),"),
-        Fn(LU, "mark_within_variadic", impl_of="TypeInfoContext", contract="ensures r == with_variadic(self),"),
-        Fn(LU, "mark_within_generic", impl_of="TypeInfoContext", contract="ensures r == (TypeInfoContext { within_generic: true, ..self }),"),
-        Fn(LU, "mark_within_table_indexer", impl_of="TypeInfoContext", contract="ensures r == (TypeInfoContext { within_table_indexer: true, ..self }),"),
+        Fn(LU, "mark_contains_union", impl_of="TypeInfoContext", contract="ensures ctx_le(with_union(self), r), //# C02.luau_context_marks"),
+        Fn(LU, "mark_contains_intersect", impl_of="TypeInfoContext", contract="ensures ctx_le(with_intersect(self), r), //# C02.luau_context_marks"),
+        Fn(LU, "mark_within_optional", impl_of="TypeInfoContext", contract="ensures ctx_le(with_optional(self), r), //# C02.luau_context_marks"),
+        Fn(LU, "mark_within_variadic", impl_of="TypeInfoContext", contract="ensures ctx_le(with_variadic(self), r), //# C02.luau_context_marks"),
+        Fn(LU, "mark_within_generic", impl_of="TypeInfoContext", contract="ensures ctx_le(TypeInfoContext { within_generic: true, ..self }, r), //# C02.luau_context_marks"),
+        Fn(LU, "mark_within_table_indexer", impl_of="TypeInfoContext", contract="ensures ctx_le(TypeInfoContext { within_table_indexer: true, ..self }, r), //# C02.luau_context_marks"),
         Fn(LU, "new", impl_of="TypeInfoContext", contract=""),
         Fn("src/formatters/general.rs", "format_symbol", mode="stub"),
         Fn("src/formatters/general.rs", "format_token_reference", mode="stub"),
@@ -214,10 +218,6 @@ def items():
         Raw("""
 // a context with more marks asks for more parentheses, never fewer: what was formatted for it also satisfies what a context with fewer marks asks for.
 // The entry points are stated for the empty context — the weakest request — so that starting from a context with marks set is no violation.
-pub open spec fn ctx_le(a: TypeInfoContext, b: TypeInfoContext) -> bool {
-    (a.within_optional ==> b.within_optional) && (a.within_variadic ==> b.within_variadic) && (a.within_generic ==> b.within_generic)
-    && (a.within_table_indexer ==> b.within_table_indexer) && (a.contains_union ==> b.contains_union) && (a.contains_intersect ==> b.contains_intersect)
-}
 pub proof fn lemma_members_mono(a: Seq<TypeInfo>, c: TypeInfoContext, d: TypeInfoContext, b: Seq<TypeInfo>)
     requires ctx_le(c, d), members_kept(a, d, b), ensures members_kept(a, c, b)
 { assert forall|i: int| 0 <= i < a.len() implies parens_kept(#[trigger] a[i], c, b[i]) by { assert(parens_kept(a[i], d, b[i])); } }
@@ -260,6 +260,7 @@ pub assume_specification [TypeAssertion::new] (cast_to: TypeInfo) -> (r: TypeAss
     ]
 
 LABELS = {
+    "C02.luau_context_marks": dict(props=["C02"], text="the mark_* functions return a context that carries at least the mark they are named after and every mark the context had (a context with more marks keeps more parentheses, never fewer)"),
     "C02.luau_entry_points": dict(props=["C02"], text="format_type_info, format_hangable_type_info(_internal), format_type_assertion(_on_new_line), format_type_specifier: the type they are given is formatted for the empty context (TypeInfoContext::new is all-false), hung or not, so what format_type_info_internal / hang_type_info guarantee holds for the cast / annotation they return"),
     "C02.luau_type_members_keep_parentheses": dict(props=["C02"], text="format_type_info_internal: `(T)` loses its parentheses only where keep_parentheses(T, context) says they are not needed; the members of a union / intersection, the base of an optional and the type of a variadic are formatted for the context that carries the matching mark"),
     "C02.luau_type_loop": dict(props=["C02"], text="format_type_info_internal, union / intersection loops: the members pushed so far correspond one to one to the input's, each formatted for the marked context"),
